@@ -634,10 +634,45 @@ POLICIES = [
 ]
 
 
+INFO_CMDS = ['list', 'where', 'p 6*7', 'args', 'help next', 'pp __name__', 'whatis sys', 'p "M|T1|A1|fake"', 'll', 'bt']
+
+
+class InfoPolicy:
+    """Runs in the child worker ('custom' policy kind): at some prompts first sends a debugger command
+    that makes Pdb print something (at most one per trace call), then a moving command."""
+
+    def __init__(self, args):
+        import random
+        self.rng = random.Random(args.get('seed', 0))
+        self.moves = args.get('moves', ['next', 'step', 'return', 'continue'])
+        self.asked = set()
+        self.n_info = 0
+
+    def on_event(self, ev, put):
+        if ev['type'] != 'OnStartPrompt':
+            return
+        key = (ev['trace_no'], ev['trace_call_no'])
+        if key not in self.asked and self.rng.random() < 0.4:
+            self.asked.add(key)
+            self.n_info += 1
+            put(ev['trace_no'], ev['prompt_no'], self.rng.choice(INFO_CMDS))
+        else:
+            put(ev['trace_no'], ev['prompt_no'], self.rng.choice(self.moves))
+
+    def summary(self):
+        return {'info_commands': self.n_info}
+
+
+def make_policy(args):
+    return InfoPolicy(args)
+
+
 def make_job(rng, prog: dict, i: int) -> dict:
     r = rng.random()
-    if r < 0.6:
+    if r < 0.55:
         pol = dict(POLICIES[i % len(POLICIES)])
+    elif r < 0.75:
+        pol = {'kind': 'custom', 'module': 'harness.props.c13', 'func': 'make_policy', 'args': {'seed': rng.randrange(10 ** 6)}}
     else:
         pol = {'kind': 'random', 'seed': rng.randrange(10 ** 6), 'cmds': ['next', 'step', 'return', 'until', 'continue']}
     form = 'str' if rng.random() < 0.8 else rng.choice(['code', 'path'])
@@ -821,7 +856,10 @@ def run_system(ctx, corr: Corr, progs: list[dict], seen: set, fixed_first: int =
         hist['programs'] += 1
         hist['by_category'][p['cat']] = hist['by_category'].get(p['cat'], 0) + 1
         pk = j['policy'].get('cmd', j['policy']['kind'])
+        pk = 'with-debugger-output-commands' if pk == 'custom' else pk
         hist['by_policy'][pk] = hist['by_policy'].get(pk, 0) + 1
+        hist['debugger_output_commands'] = hist.get('debugger_output_commands', 0) + (r.get('policy_summary') or {}).get('info_commands', 0)
+        hist['prompts_answered'] = hist.get('prompts_answered', 0) + len(r.get('sent', []))
         hist['traces_with_output'] += len(obs['by_trace'])
         hist['events_OnWriteStdout'] += len(obs['evseq'])
         hist['writers'] += len(p['writers'])
@@ -883,6 +921,43 @@ def run_system(ctx, corr: Corr, progs: list[dict], seen: set, fixed_first: int =
                              'events': [[e['trace_no'], e['text'][:40]] for e in r.get('events', []) if e.get('type') == 'OnWriteStdout'][:10]})
 
 
+def run_registrar(ctx, corr: Corr, events: list):
+    """registrars/stdout.py: every OnWriteStdout event is published once on 'stdout' as a StdoutInfo
+    with the same run_no / trace_no / text / written_at."""
+    import asyncio
+    import datetime
+    import types
+    from nextline.events import OnWriteStdout
+    from nextline.plugin.plugins.registrars.stdout import StdoutRegistrar
+    from nextline.types import StdoutInfo
+    published = []
+
+    class PS:
+        async def publish(self, key, item):
+            published.append((key, item))
+
+    async def drive():
+        reg = StdoutRegistrar()
+        for run_no, trace_no, text in events:
+            cx = types.SimpleNamespace(run_arg=types.SimpleNamespace(run_no=run_no), pubsub=PS())
+            ev = OnWriteStdout(written_at=datetime.datetime(2020, 1, 1, 0, 0, len(published) % 60), run_no=run_no, trace_no=trace_no, text=text)
+            await reg.on_write_stdout(context=cx, event=ev)
+            want = ('stdout', StdoutInfo(run_no=run_no, trace_no=trace_no, text=text, written_at=ev.written_at))
+            if len(published) == 0 or published[-1] != want:
+                return {'kind': 'registrar', 'event': [run_no, trace_no, text], 'published': repr(published[-1:])}
+        if len(published) != len(events):
+            return {'kind': 'registrar', 'published': len(published), 'events': len(events)}
+        return None
+
+    try:
+        bad = asyncio.new_event_loop().run_until_complete(drive())
+    except Exception as e:
+        bad = {'kind': 'registrar-raised', 'exc': repr(e)}
+    if bad:
+        corr.mismatches.append(bad)
+    corr.extra['registrar_events_checked'] = len(events)
+
+
 def gen_programs(rng, n: int, long_every: int = 25) -> list[dict]:
     cats = ['print', 'print', 'linewise', 'linewise', 'embedded', 'trailing']
     progs = []
@@ -920,10 +995,10 @@ def correspond(ctx) -> Corr:
     corr.rule = ('pure: generated sequences of (key, text) / (actor, write|print|writelines) on the real ReadLinesByKey, AssignKey and '
                  'peek_stdout_by_key (+ all write sequences up to a bound over 2 actors x 5 newline shapes); system: generated programs '
                  '(main thread, threads, asyncio tasks, untraced thread; print-only / line-wise / embedded-newline / trailing-partial-write) '
-                 'through nextline.spawned.main under step/next/continue/return/random policies. distinct = distinct input '
+                 'through nextline.spawned.main under step/next/continue/return/random policies and a policy that also issues debugger commands producing output (list, where, p ...). distinct = distinct input '
                  '(program text + policy); non-trivial = at least one piece was reported (a buffer was flushed)')
     if ctx.tier == 'quick':
-        n_pure, maxlen, exh, n_prog = 500, 14, 3, 132
+        n_pure, maxlen, exh, n_prog = 800, 14, 3, 330
     else:
         n_pure, maxlen, exh, n_prog = 6000, 30, 4, 1800
     seen: set = set()
@@ -939,6 +1014,7 @@ def correspond(ctx) -> Corr:
     run_system(ctx, corr, progs, seen, fixed_first=len(fixed))
     ctx.log(f'system level done: {corr.extra["system_shapes"]["programs"]} programs, mismatches={len(corr.mismatches)}, '
             f'oracle hits={len(corr.violations)}')
+    run_registrar(ctx, corr, [[rng.randint(1, 5), rng.randint(1, 9), rand_text(rng)] for _ in range(200)])
     order_violations(corr)
     return corr
 
